@@ -717,7 +717,18 @@ func checkC06(c *Ctx) {
 				return
 			}
 			d := p.Desc(ia.Index, nil)
-			if !strings.Contains(d, "Sum32(") {
+			isSum := func(v ssa.Value) bool {
+				call, ok := v.(*ssa.Call)
+				return ok && strings.HasSuffix(CalleeName(call), ".Sum32")
+			}
+			fromHash := c.flowsFrom(ia.Index, isSum)
+			if !fromHash {
+				// the jump-hash loop inlined: the bucket derives from the counter, whose step derives from the key
+				if _, jp, _ := c.jumpLoop(); jp != nil && jp.Parent() == fn {
+					fromHash = c.flowsFrom(jp, isSum)
+				}
+			}
+			if !fromHash {
 				detail = "the index does not derive from the address hash: " + d
 				return
 			}
@@ -744,6 +755,53 @@ func checkC06(c *Ctx) {
 			}
 			walk(ia.Index, 0)
 			if !usesLen {
+				isLen := func(v ssa.Value) bool {
+					call, ok := v.(*ssa.Call)
+					return ok && CalleeName(call) == "builtin:len" && c.sameSlice(fn, call.Call.Args[0], ia.X)
+				}
+				// every way the index can be computed must be reduced by that length (a φ that merges an
+				// index reduced by another length with a clamp is not)
+				var all func(v ssa.Value, d int) bool
+				all = func(v ssa.Value, d int) bool {
+					v = stripConv(v)
+					if ph, ok := v.(*ssa.Phi); ok && d < 6 {
+						for _, e := range ph.Edges {
+							if !all(e, d+1) {
+								return false
+							}
+						}
+						return len(ph.Edges) > 0
+					}
+					if b, ok := v.(*ssa.BinOp); ok && b.Op == token.REM {
+						return c.flowsFrom(b.Y, isLen)
+					}
+					if call, ok := v.(*ssa.Call); ok {
+						for _, a := range call.Call.Args {
+							if c.flowsFrom(a, isLen) {
+								return true
+							}
+						}
+						if h := StaticFn(call); h != nil && p.IsHelios(h) && h.Blocks != nil {
+							okAll, n := true, 0
+							instrsOf(h, func(in ssa.Instruction) {
+								if r, isRet := in.(*ssa.Return); isRet && len(r.Results) == 1 {
+									n++
+									if !all(r.Results[0], d+1) {
+										okAll = false
+									}
+								}
+							})
+							return okAll && n > 0
+						}
+					}
+					return false
+				}
+				usesLen = all(ia.Index, 0)
+				if _, jp, bd := c.jumpLoop(); !usesLen && jp != nil && jp.Parent() == fn {
+					usesLen = c.flowsFrom(bd, isLen)
+				}
+			}
+			if !usesLen {
 				detail = "the index is not reduced by the length of the slice it indexes (out-of-range panic or an ineligible backend)"
 				return
 			}
@@ -751,51 +809,81 @@ func checkC06(c *Ctx) {
 		})
 		c.Check(okIdx, "affinity-index-in-slice", construct, p.Pos(fn.Pos()), "healthy[f(hash, len(healthy))] over one slice value", detail)
 	}
-	// jumpHash
-	jh := p.Fn("internal/loadbalancer", "", "jumpHash")
+	// jump consistent hash, wherever the loop lives (a helper or the strategy itself)
+	jh, jphi, bound := c.jumpLoop()
 	if jh == nil {
 		c.Missing("jump-hash-in-range", "loadbalancer.jumpHash")
 		return
 	}
-	okLoop, okRet := false, false
-	var jphi *ssa.Phi
-	instrsOf(jh, func(in ssa.Instruction) {
-		if ifi, isIf := in.(*ssa.If); isIf {
-			if b, ok := ifi.Cond.(*ssa.BinOp); ok {
-				r := p.RelOf(ifi.Cond, true, nil)
-				if ph, isPhi := b.X.(*ssa.Phi); isPhi && strings.Contains(r.Y, "param:numBuckets") && r.Hi == -1 {
-					okLoop = true
-					jphi = ph
-				}
-			}
+	okLoop := jphi != nil
+	okRet := false
+	isJ := func(v ssa.Value) bool { return v == ssa.Value(jphi) }
+	viaBucket := func(v ssa.Value) bool {
+		// the value is the bucket variable: a φ that took its value from the counter inside the loop
+		ph, isPhi := stripConv(v).(*ssa.Phi)
+		if !isPhi {
+			return false
 		}
-	})
-	instrsOf(jh, func(in ssa.Instruction) {
-		if r, isRet := in.(*ssa.Return); isRet && jphi != nil {
-			if ph, isPhi := stripConv(r.Results[0]).(*ssa.Phi); isPhi {
-				fromJ := false
-				for _, e := range ph.Edges {
-					if e == ssa.Value(jphi) {
-						fromJ = true
+		for _, e := range ph.Edges {
+			if isJ(e) {
+				return true
+			}
+			if inner, ok := e.(*ssa.Phi); ok {
+				for _, e2 := range inner.Edges {
+					if isJ(e2) {
+						return true
 					}
 				}
-				okRet = fromJ
 			}
 		}
-	})
+		return false
+	}
+	if jphi != nil {
+		instrsOf(jh, func(in ssa.Instruction) {
+			switch x := in.(type) {
+			case *ssa.Return:
+				if len(x.Results) == 1 && viaBucket(x.Results[0]) {
+					okRet = true
+				}
+			case *ssa.IndexAddr:
+				if viaBucket(x.Index) {
+					// inlined form: the bucket indexes the candidate slice directly; its bound must be that slice's length
+					if c.flowsFrom(bound, func(v ssa.Value) bool {
+						call, ok := v.(*ssa.Call)
+						return ok && CalleeName(call) == "builtin:len" && c.sameSlice(jh, call.Call.Args[0], x.X)
+					}) {
+						okRet = true
+					}
+				}
+			}
+		})
+	}
 	// the jump step (b+1)*(2^31/((key>>33)+1)) needs 64-bit arithmetic: it reaches numBuckets·2^31
 	wide := true
 	var narrow string
-	instrsOf(jh, func(in ssa.Instruction) {
-		if b, ok := in.(*ssa.BinOp); ok && (b.Op.String() == "*" || b.Op.String() == "/") {
-			if bt, isB := b.Type().Underlying().(*types.Basic); isB && bt.Info()&types.IsInteger != 0 {
-				if bt.Kind() != types.Int64 && bt.Kind() != types.Uint64 {
-					wide = false
-					narrow = p.InstrPos(b) + ": " + b.Op.String() + " computed in " + bt.Name()
-				}
+	if jphi != nil {
+		inLoop := map[*ssa.BasicBlock]bool{jphi.Block(): true}
+		for _, b := range jh.Blocks {
+			if jphi.Block().Dominates(b) && reaches(b, jphi.Block(), map[*ssa.BasicBlock]bool{}) {
+				inLoop[b] = true
 			}
 		}
-	})
+		instrsOf(jh, func(in ssa.Instruction) {
+			if b, ok := in.(*ssa.BinOp); ok && inLoop[b.Block()] && (b.Op.String() == "*" || b.Op.String() == "/") {
+				if bt, isB := b.Type().Underlying().(*types.Basic); isB && bt.Info()&types.IsInteger != 0 {
+					if bt.Kind() != types.Int64 && bt.Kind() != types.Uint64 {
+						wide = false
+						narrow = p.InstrPos(b) + ": " + b.Op.String() + " computed in " + bt.Name()
+					}
+				}
+			}
+		})
+		// the counter and the bucket themselves must be 64 bits wide
+		if bt, isB := jphi.Type().Underlying().(*types.Basic); isB && bt.Kind() != types.Int64 && bt.Kind() != types.Uint64 {
+			wide = false
+			narrow = p.InstrPos(jphi) + ": loop counter is " + bt.Name()
+		}
+	}
 	c.Check(wide, "jump-hash-arithmetic-width", "loadbalancer.jumpHash", p.Pos(jh.Pos()), "every product/quotient of the jump step is computed in 64 bits",
 		"the jump step is computed in fewer than 64 bits ("+narrow+"): it overflows for some hash values, giving a negative or unrelated bucket (index out of range / clients remapped on append)")
 	c.Check(okLoop && okRet, "jump-hash-in-range", "loadbalancer.jumpHash", p.Pos(jh.Pos()), "the returned bucket is a value of j taken while j < numBuckets",
@@ -990,4 +1078,105 @@ func (c *Ctx) transportAllocs(v ssa.Value, depth int, out *[]*ssa.Alloc) {
 	case *ssa.Extract:
 		c.transportAllocs(x.Tuple, depth+1, out)
 	}
+}
+
+// flowsFrom: does v depend (through arithmetic, conversions, φs, call arguments and helper results) on
+// a value that satisfies hit?
+func (c *Ctx) flowsFrom(v ssa.Value, hit func(ssa.Value) bool) bool {
+	seen := map[ssa.Value]bool{}
+	var walk func(x ssa.Value, d int) bool
+	walk = func(x ssa.Value, d int) bool {
+		if x == nil || seen[x] || d > 16 {
+			return false
+		}
+		seen[x] = true
+		if hit(x) {
+			return true
+		}
+		switch y := x.(type) {
+		case *ssa.BinOp:
+			return walk(y.X, d+1) || walk(y.Y, d+1)
+		case *ssa.UnOp:
+			return walk(y.X, d+1)
+		case *ssa.Convert:
+			return walk(y.X, d+1)
+		case *ssa.ChangeType:
+			return walk(y.X, d+1)
+		case *ssa.Phi:
+			for _, e := range y.Edges {
+				if walk(e, d+1) {
+					return true
+				}
+			}
+		case *ssa.Extract:
+			return walk(y.Tuple, d+1)
+		case *ssa.Call:
+			for _, a := range y.Call.Args {
+				if walk(a, d+1) {
+					return true
+				}
+			}
+			if y.Call.IsInvoke() && walk(y.Call.Value, d+1) {
+				return true
+			}
+			if h := StaticFn(y); h != nil && c.P.IsHelios(h) && h.Blocks != nil {
+				found := false
+				instrsOf(h, func(in ssa.Instruction) {
+					if r, ok := in.(*ssa.Return); ok {
+						for _, rv := range r.Results {
+							if walk(rv, d+1) {
+								found = true
+							}
+						}
+					}
+				})
+				if found {
+					return true
+				}
+			}
+		}
+		return false
+	}
+	return walk(v, 0)
+}
+
+// jumpLoop finds the jump-consistent-hash loop (recognised by its LCG multiplier) wherever it lives:
+// the function, the loop counter φ and the bound it is compared below.
+func (c *Ctx) jumpLoop() (fn *ssa.Function, j *ssa.Phi, bound ssa.Value) {
+	p := c.P
+	for _, f := range p.Funcs {
+		if !p.InScope(f) {
+			continue
+		}
+		has := false
+		instrsOf(f, func(in ssa.Instruction) {
+			if b, ok := in.(*ssa.BinOp); ok && b.Op == token.MUL {
+				for _, o := range []ssa.Value{b.X, b.Y} {
+					if k, isK := o.(*ssa.Const); isK && k.Value != nil && k.Value.ExactString() == "2862933555777941757" {
+						has = true
+					}
+				}
+			}
+		})
+		if !has {
+			continue
+		}
+		fn = f
+		instrsOf(f, func(in ssa.Instruction) {
+			ifi, isIf := in.(*ssa.If)
+			if !isIf {
+				return
+			}
+			b, ok := ifi.Cond.(*ssa.BinOp)
+			if !ok {
+				return
+			}
+			r := p.RelOf(ifi.Cond, true, nil)
+			if ph, isPhi := b.X.(*ssa.Phi); isPhi && r.OK && r.Pred == "" && r.Hi == -1 && r.Lo == negInf && ifi.Block() == ph.Block() {
+				j, bound = ph, b.Y
+			}
+		})
+		return
+	}
+	return nil, nil, nil
 }
